@@ -568,7 +568,7 @@ func orPlain(q string) string {
 // SPIN calls - including ones whose goroutine has not started yet - cannot leak
 // into the next run's ledger.
 func waitCalls(base int64, expected int) {
-	for i := 0; i < 1500; i++ {
+	for i := 0; i < 20000; i++ {
 		if vfEntered.Load()-base >= int64(expected) && vfEntered.Load() == vfExited.Load() {
 			return
 		}
